@@ -17,6 +17,9 @@ class StepCapExceeded(Exception):
     """A run exceeded its step cap (reported by the property as a liveness violation)."""
 
 
+_RESERVED = frozenset(('seq', 'vt', 'node', 'kind'))
+
+
 def canon(value: Any) -> Any:
     """Canonical, interpreter-independent JSON-able form of a recorded value."""
     if value is None or isinstance(value, (bool, int, str)):
@@ -81,7 +84,9 @@ class World:
         self.plan: Dict[Any, Any] = {}          # pre-drawn callee scripts: suspension delays, outcomes
 
     # -- history -------------------------------------------------------------
-    def rec(self, node: str, kind: str, **fields: Any) -> int:
+    def rec(self, node: str, kind: str, /, **fields: Any) -> int:
+        if fields.keys() & _RESERVED:
+            raise HarnessError(f'reserved record field in {sorted(fields)}')
         self.seq += 1
         if self.recording:
             r = {'seq': self.seq, 'vt': self.now, 'node': node, 'kind': kind}
